@@ -1,6 +1,7 @@
 #!/bin/bash
 # runs ./check all against every seeded change (scratch copy of /repo/src), prints a matrix.
 # 6 workers, each with its own build / evidence / replay directories under .build/matrix/<seed>.
+# optional arguments: seed names (default: all of seeded/).
 # Location-independent (a snapshot copy of /verif can run it while /verif is being edited).
 V=$(cd "$(dirname "$0")/.." && pwd); export V
 cd $V
@@ -23,5 +24,5 @@ one() {
   rm -rf $B
 }
 export -f one
-ls seeded | xargs -P 6 -n 1 bash -c 'one "$0"' | sort
+if [ $# -gt 0 ]; then printf '%s\n' "$@"; else ls seeded; fi | xargs -P 6 -n 1 bash -c 'one "$0"' | sort
 rm -rf .build/matrix
